@@ -273,3 +273,247 @@ pub fn last_state_proof_mutants(
     }
     out
 }
+
+// ---------------------------------------------------------------------------------------------
+// BlockFilters / SendBlocksProof / SendTransactionsProof / SendBlock mutations (C06, C02)
+// ---------------------------------------------------------------------------------------------
+
+/// (label, start, fs, hs, message): fs[i] = block id (1-based) whose filter data is at position i
+/// (0 = tampered bytes), hs[i] = block id whose hash is sent at position i (-1 = not a block of the world)
+pub struct FilterMutant {
+    pub label: String,
+    pub start: u64,
+    pub fs: Vec<i64>,
+    pub hs: Vec<i64>,
+    pub msg: packed::BlockFilterMessage,
+}
+
+pub fn block_filters_mutants(c: &SimChain, tip: usize, start: u64, n: usize, rng: &mut rand::rngs::StdRng) -> Vec<FilterMutant> {
+    use rand::Rng;
+    let chain = c.chain_of(tip);
+    let tipn = c.blocks[tip].num;
+    if start > tipn || n == 0 {
+        return vec![];
+    }
+    let end = std::cmp::min(tipn, start + n as u64 - 1);
+    let ids: Vec<usize> = (start..=end).map(|h| chain[h as usize]).collect();
+    let build = |start: u64, fs: &[Option<usize>], hs: &[Option<usize>], tamper: Option<usize>| -> packed::BlockFilterMessage {
+        let filters: Vec<packed::Bytes> = fs
+            .iter()
+            .enumerate()
+            .map(|(i, f)| {
+                let mut raw = f.map(|b| c.blocks[b].filter.raw_data().to_vec()).unwrap_or_else(|| vec![1, 2, 3]);
+                if tamper == Some(i) {
+                    if raw.is_empty() { raw.push(7) } else { let k = raw.len() - 1; raw[k] ^= 0x55 }
+                }
+                Bytes::from(raw).pack()
+            })
+            .collect();
+        let hashes: Vec<packed::Byte32> = hs
+            .iter()
+            .map(|h| match h {
+                Some(b) => c.blocks[*b].header.hash(),
+                None => [0xEEu8; 32].pack(),
+            })
+            .collect();
+        let content = packed::BlockFilters::new_builder()
+            .start_number(start.pack())
+            .block_hashes(hashes.pack())
+            .filters(packed::BytesVec::new_builder().set(filters).build())
+            .build();
+        packed::BlockFilterMessage::new_builder().set(content).build()
+    };
+    let some = |v: &[usize]| v.iter().map(|x| Some(*x)).collect::<Vec<_>>();
+    let j = |v: &[Option<usize>]| v.iter().map(|x| x.map(|b| b as i64 + 1).unwrap_or(-1)).collect::<Vec<i64>>();
+    let mut out = Vec::new();
+    let k = ids.len();
+    // tampered filter bytes at a position
+    let i = rng.gen_range(0..k);
+    {
+        let fs = some(&ids);
+        let mut fj = j(&fs);
+        fj[i] = 0;
+        out.push(FilterMutant { label: format!("tamper[{}]", i), start, fs: fj, hs: j(&some(&ids)), msg: build(start, &fs, &some(&ids), Some(i)) });
+    }
+    // two filters swapped (hashes kept)
+    if k >= 2 {
+        let mut f2 = ids.clone();
+        f2.swap(0, 1);
+        out.push(FilterMutant { label: "swap-filters".into(), start, fs: j(&some(&f2)), hs: j(&some(&ids)), msg: build(start, &some(&f2), &some(&ids), None) });
+    }
+    // shifted start number
+    for d in [-1i64, 1] {
+        let s2 = start as i64 + d;
+        if s2 >= 0 {
+            out.push(FilterMutant { label: format!("start{:+}", d), start: s2 as u64, fs: j(&some(&ids)), hs: j(&some(&ids)), msg: build(s2 as u64, &some(&ids), &some(&ids), None) });
+        }
+    }
+    // a hash dropped / duplicated: counts differ
+    {
+        let mut h2 = ids.clone();
+        h2.pop();
+        out.push(FilterMutant { label: "drop-hash".into(), start, fs: j(&some(&ids)), hs: j(&some(&h2)), msg: build(start, &some(&ids), &some(&h2), None) });
+        let mut h3 = ids.clone();
+        h3.push(ids[0]);
+        out.push(FilterMutant { label: "dup-hash".into(), start, fs: j(&some(&ids)), hs: j(&some(&h3)), msg: build(start, &some(&ids), &some(&h3), None) });
+    }
+    // block hash substituted while the filter is kept: another canonical block / a block of another branch / garbage
+    {
+        let other_canon = chain.iter().cloned().find(|b| !ids.contains(b) && *b != 0);
+        let fork_block = (0..c.blocks.len()).find(|b| !c.is_ancestor(*b, tip));
+        for (name, sub) in [("canon", other_canon), ("fork", fork_block), ("random", None)] {
+            if name != "random" && sub.is_none() {
+                continue;
+            }
+            let mut hs = some(&ids);
+            hs[i] = sub;
+            out.push(FilterMutant { label: format!("subst-hash[{}]={}", i, name), start, fs: j(&some(&ids)), hs: j(&hs), msg: build(start, &some(&ids), &hs, None) });
+        }
+    }
+    out
+}
+
+/// A block with the right header and a body that the header does not commit to.
+pub fn forged_body(c: &SimChain, block: usize, variant: usize) -> packed::Block {
+    let b = &c.blocks[block].block;
+    let mut txs: Vec<packed::Transaction> = b.transactions().iter().map(|t| t.data()).collect();
+    match variant % 3 {
+        0 if txs.len() > 1 => {
+            // replace a transaction: same shape, other capacity in the first output
+            let t = &txs[1];
+            let raw = t.raw();
+            let mut outs: Vec<packed::CellOutput> = raw.outputs().into_iter().collect();
+            if !outs.is_empty() {
+                outs[0] = outs[0].clone().as_builder().capacity(12345u64.pack()).build();
+            }
+            let raw2 = raw.as_builder().outputs(outs.pack()).build();
+            txs[1] = t.clone().as_builder().raw(raw2).build();
+        }
+        1 if txs.len() > 1 => {
+            txs.remove(1);
+        }
+        _ => {
+            // add a transaction paying to the first world script
+            let extra = ckb_types::core::TransactionBuilder::default()
+                .output(
+                    packed::CellOutput::new_builder()
+                        .capacity(777u64.pack())
+                        .lock(c.scripts[0].clone())
+                        .build(),
+                )
+                .output_data(Bytes::new().pack())
+                .build();
+            txs.push(extra.data());
+        }
+    }
+    b.data().as_builder().transactions(txs.pack()).build()
+}
+
+/// Mutations of a SendBlocksProof / SendTransactionsProof message that make it definitely incorrect
+/// (the MMR proof is never regenerated).
+pub fn proof_message_mutants(msg: &packed::LightClientMessage) -> Vec<(String, packed::LightClientMessage)> {
+    let mut out = Vec::new();
+    match msg.to_enum() {
+        packed::LightClientMessageUnion::SendBlocksProof(m) => {
+            let wrap = |m2: packed::SendBlocksProof| packed::LightClientMessage::new_builder().set(m2).build();
+            let headers: Vec<packed::Header> = m.headers().into_iter().collect();
+            let proof: Vec<packed::HeaderDigest> = m.proof().into_iter().collect();
+            if !headers.is_empty() {
+                // a header altered (hash changes: no longer the requested block)
+                let h = &headers[0];
+                let raw = h.raw();
+                let ts: u64 = raw.timestamp().unpack();
+                let mut hs = headers.clone();
+                hs[0] = h.clone().as_builder().raw(raw.as_builder().timestamp((ts + 1).pack()).build()).build();
+                out.push(("bp.header-altered".to_string(), wrap(m.clone().as_builder().headers(hs.pack()).build())));
+                // a header dropped
+                let mut hs = headers.clone();
+                hs.remove(0);
+                out.push(("bp.header-dropped".to_string(), wrap(m.clone().as_builder().headers(hs.pack()).build())));
+                // a header duplicated
+                let mut hs = headers.clone();
+                hs.push(headers[0].clone());
+                out.push(("bp.header-dup".to_string(), wrap(m.clone().as_builder().headers(hs.pack()).build())));
+                // found header also reported missing
+                let mut miss: Vec<packed::Byte32> = m.missing_block_hashes().into_iter().collect();
+                miss.push(headers[0].calc_header_hash());
+                out.push(("bp.found-and-missing".to_string(), wrap(m.clone().as_builder().missing_block_hashes(miss.pack()).build())));
+            }
+            if !proof.is_empty() {
+                let mut p = proof.clone();
+                p.remove(0);
+                out.push(("bp.proof-drop".to_string(), wrap(m.clone().as_builder().proof(packed::HeaderDigestVec::new_builder().set(p).build()).build())));
+            } else if !headers.is_empty() {
+                let p = vec![packed::HeaderDigest::default()];
+                out.push(("bp.proof-extra".to_string(), wrap(m.clone().as_builder().proof(packed::HeaderDigestVec::new_builder().set(p).build()).build())));
+            }
+            // v1 extra fields
+            if m.count_extra_fields() >= 2 && !headers.is_empty() {
+                let v1 = packed::SendBlocksProofV1::new_unchecked(m.as_bytes());
+                let mut uh: Vec<packed::Byte32> = v1.blocks_uncles_hash().into_iter().collect();
+                uh[0] = [9u8; 32].pack();
+                let v1b = v1.clone().as_builder().blocks_uncles_hash(uh.pack()).build();
+                out.push(("bp.v1-uncles-altered".to_string(), wrap(packed::SendBlocksProof::new_unchecked(v1b.as_bytes()))));
+                let mut ex: Vec<packed::BytesOpt> = v1.blocks_extension().into_iter().collect();
+                ex.pop();
+                let v1c = v1.as_builder().blocks_extension(packed::BytesOptVec::new_builder().set(ex).build()).build();
+                out.push(("bp.v1-extension-short".to_string(), wrap(packed::SendBlocksProof::new_unchecked(v1c.as_bytes()))));
+            }
+        }
+        packed::LightClientMessageUnion::SendTransactionsProof(m) => {
+            let wrap = |m2: packed::SendTransactionsProof| packed::LightClientMessage::new_builder().set(m2).build();
+            let fbs: Vec<packed::FilteredBlock> = m.filtered_blocks().into_iter().collect();
+            let set_fbs = |fbs: Vec<packed::FilteredBlock>| m.clone().as_builder().filtered_blocks(packed::FilteredBlockVec::new_builder().set(fbs).build()).build();
+            if let Some(fb) = fbs.first() {
+                // witnesses root altered
+                let mut f2 = fbs.clone();
+                f2[0] = fb.clone().as_builder().witnesses_root([3u8; 32].pack()).build();
+                out.push(("tp.witnesses-root".to_string(), wrap(set_fbs(f2))));
+                // a merkle lemma / index altered
+                let proof = fb.proof();
+                let mut idx: Vec<u32> = proof.indices().into_iter().map(|x| x.unpack()).collect();
+                if !idx.is_empty() {
+                    idx[0] += 1;
+                    let mut f2 = fbs.clone();
+                    f2[0] = fb.clone().as_builder().proof(proof.clone().as_builder().indices(idx.pack()).build()).build();
+                    out.push(("tp.merkle-index".to_string(), wrap(set_fbs(f2))));
+                }
+                let mut lem: Vec<packed::Byte32> = proof.lemmas().into_iter().collect();
+                if !lem.is_empty() {
+                    lem[0] = [4u8; 32].pack();
+                    let mut f2 = fbs.clone();
+                    f2[0] = fb.clone().as_builder().proof(proof.clone().as_builder().lemmas(lem.pack()).build()).build();
+                    out.push(("tp.merkle-lemma".to_string(), wrap(set_fbs(f2))));
+                }
+                // the transaction replaced by another one (keeps the Merkle proof)
+                let txs: Vec<packed::Transaction> = fb.transactions().into_iter().collect();
+                if let Some(t) = txs.first() {
+                    let raw = t.raw();
+                    let v: u32 = raw.version().unpack();
+                    let t2 = t.clone().as_builder().raw(raw.as_builder().version((v + 1).pack()).build()).build();
+                    let mut tx2 = txs.clone();
+                    tx2[0] = t2;
+                    let mut f2 = fbs.clone();
+                    f2[0] = fb.clone().as_builder().transactions(tx2.pack()).build();
+                    out.push(("tp.tx-replaced".to_string(), wrap(set_fbs(f2))));
+                }
+                // header altered
+                let h = fb.header();
+                let raw = h.raw();
+                let ts: u64 = raw.timestamp().unpack();
+                let mut f2 = fbs.clone();
+                f2[0] = fb.clone().as_builder().header(h.clone().as_builder().raw(raw.as_builder().timestamp((ts + 1).pack()).build()).build()).build();
+                out.push(("tp.header-altered".to_string(), wrap(set_fbs(f2))));
+                // mmr proof altered
+                let proof: Vec<packed::HeaderDigest> = m.proof().into_iter().collect();
+                if !proof.is_empty() {
+                    let mut p = proof.clone();
+                    p.remove(0);
+                    out.push(("tp.proof-drop".to_string(), wrap(m.clone().as_builder().proof(packed::HeaderDigestVec::new_builder().set(p).build()).build())));
+                }
+            }
+        }
+        _ => {}
+    }
+    out
+}
